@@ -6,6 +6,21 @@ Open Scope string_scope.
 Definition needed_ok (tbl : term) (p : profile) : bool :=
   forallb (fun f => String.eqb (f_name f) "" || tbl_has tbl (simplify_func (f_name f))) (p_function p).
 
+(* id-free rendering of frame samples, for observables that went through the driver (fetchProfiles
+   may renumber / compact): a frame is (function name, file, line) or an address *)
+Definition free_frame (p : profile) (fr : frame) : term :=
+  match fr_line fr with
+  | Some ln => match find_function p (ln_fn ln) with
+               | Some f => TL [TS (f_name f); TS (f_file f); TZ (ln_line ln)]
+               | None => TL [TS "?"]
+               end
+  | None => match find_location p (fr_loc fr) with Some l => TL [TZ (l_addr l)] | None => TL [] end
+  end.
+Definition free_fsample (p : profile) (s : fsample) : term :=
+  TL [of_zs (fs_val s); of_kss (fs_label s); of_kzs (fs_numlabel s); of_kss (fs_numunit s);
+      TL (map (free_frame p) (fs_frames s))].
+Definition free_fsamples (p : profile) (ss : list fsample) : term := TL (map (free_fsample p) ss).
+
 Definition run_C11 (i : term) : term :=
   let op := gs (gn i 0) in
   if String.eqb op "simplify" then TS (simplify_func (gs (gn i 1)))
@@ -26,6 +41,12 @@ Definition run_C11 (i : term) : term :=
       | Some p' => TL (TS "ok" :: obs_profile p')
       | None => TL (TS "err" :: obs_profile p)
       end
+    else if String.eqb op "fetch" then
+      (* fetchProfiles on one in-memory source: RemoveUninteresting applied exactly once, its error ignored *)
+      let tbl := gn i 2 in
+      if negb (needed_ok tbl p) then TL [TS "table-miss"] else
+      let p' := match remove_uninteresting (tbl_M tbl) (tbl_V tbl) p with Some q => q | None => p end in
+      TL [TS "ok"; free_fsamples p' (fsamples p')]
     else TL [TS "bad-op"].
 
 Definition eqv_C11 (i m o : term) : bool := term_eqb m o.
@@ -56,6 +77,12 @@ Definition spec_C11 (i o : term) : bool :=
       else (* an expression that does not compile: error, profile untouched *)
         (negb (tbl_V tbl (ru_drop p)) || match ru_keep p with Some k => negb (tbl_V tbl k) | None => false end)
         && term_eqb (TL (obs_profile p')) (TL (obs_profile p))
+    else if String.eqb op "fetch" then
+      let tbl := gn i 2 in
+      let compiles := tbl_V tbl (ru_drop p) && match ru_keep p with Some k => tbl_V tbl k | None => true end in
+      let want := if String.eqb (p_dropframes p) "" || negb compiles then fsamples p
+                  else spec_prune (tbl_M tbl) p (ru_drop p) (ru_keep p) (fsamples p) in
+      String.eqb (gs (gn o 0)) "ok" && term_eqb (gn o 1) (free_fsamples p want)
     else false.
 
 Definition cls_C11 (i : term) : list Z :=
@@ -67,7 +94,7 @@ Definition cls_C11 (i : term) : list Z :=
       if in_F14 (tbl_M (gn i 4)) p (gs (gn i 2)) (opt_s (gn i 3)) then [14] else []
     else if String.eqb op "prunefrom" then
       if in_F15 (tbl_M (gn i 3)) p (gs (gn i 2)) then [15] else []
-    else if String.eqb op "removeun" then
+    else if String.eqb op "removeun" || String.eqb op "fetch" then
       if negb (String.eqb (p_dropframes p) "") && tbl_V (gn i 2) (ru_drop p)
          && match ru_keep p with Some k => tbl_V (gn i 2) k | None => true end
          && in_F14 (tbl_M (gn i 2)) p (ru_drop p) (ru_keep p) then [14] else []
